@@ -169,4 +169,14 @@ CHECKS = {
           "MusicXML fixtures, hostile classes (under-full measures, unequal chords inside a voice).",
   "note": "Trusted: vmon/refmodels/musicxml_reader.py, timemaps.py, lxml. Open known findings: Words not written, under-full measure shrinks, voice reassignment on intra-voice overlap, zero-length wedge, <print> gained by scores without page/system objects.",
  },
+ "C18": {
+  "technique": "post-condition hooks on to_matched_score / get_matched_notes / get_time_maps_from_alignment / encode_performance / decode_performance; round-trip judge with one common shift",
+  "text": "Hooks on the codec entry points check that the matched-note table pairs exactly the alignment's matches present on both "
+          "sides, ordered by score onset then pitch; that the time maps pass through every matched onset (chords by their mean) in "
+          "both directions; and that decoding the encoded parameters against the same score reproduces every matched note's onset "
+          "(up to one common shift), duration and velocity within single-precision tolerance, for the five normalisations and both "
+          "tempo-curve methods. Workload: generated single-part scores (chords, voices, grace notes, pickups, unisons) with "
+          "note-for-note performances plus insertions/deletions/ornaments, deadpan tempo, dangling ids; the match fixtures.",
+  "note": "Trusted: vmon/refmodels/c18_align.py. Open known finding: grace notes decode with duration 0 by design of the articulation parameter.",
+ },
 }
